@@ -99,7 +99,23 @@ def run_check(prop, tier, seed):
     t0 = time.time()
     scratch.setup_root(ctx)
     try:
-        report = mod.run(ctx)
+        try:
+            report = mod.run(ctx)
+        except BaseException as e:  # noqa
+            from .engine_i import raised_inside_signac
+            where = raised_inside_signac(e)
+            if where is None or isinstance(e, (KeyboardInterrupt, SystemExit)):
+                raise
+            # a signac call the check makes while preparing its universe fails inside signac itself
+            report = Report(getattr(mod, "LEVEL", "exploration"))
+            report.coverage.update({"evaluations": 1, "distinct_nontrivial": 0, "rule": "aborted: a preparatory signac call raised",
+                                    "samples": [], "states": 1, "transitions": 1, "traces_validated_against_impl": 1,
+                                    "exhaustive": False})
+            report.add_violation({"sig": {"kind": "public-call-raises", "exc": type(e).__name__, "where": where},
+                                  "scenario": "setup", "input": {"phase": "universe construction"},
+                                  "expected": "no exception", "observed": f"{type(e).__name__}: {e}"[:500],
+                                  "msg": f"a signac call made while the check prepared its universe raised "
+                                         f"{type(e).__name__}: {e} (in {where})\n" + traceback.format_exc()[-1200:]})
     finally:
         scratch.teardown_root()
     wall = time.time() - t0
@@ -177,6 +193,12 @@ def run_replay(path):
     with open(path) as f:
         payload = json.load(f)
     prop = payload["property"]
+    if (payload.get("signature") or {}).get("kind") == "public-call-raises":
+        print(f"replay of {path}: a signac call made by the check itself failed:")
+        print(payload.get("message"))
+        print(f"re-run `./vcheck {prop}` to reproduce (the failing call is part of the check's set-up)")
+        print(f"VIOLATION property={prop} replay={path}")
+        return 1
     ctx = Ctx(prop, payload.get("tier", "quick"), payload.get("seed", 0))
     _assert_repo(ctx)
     mod = importlib.import_module(f"vlib.checks.{prop.lower()}")
